@@ -1,6 +1,7 @@
 """encrypt.Filter engine: encrypth (Go, real filter) vs Tag.v / Encrypt.v / Crypto.v (Coq), for C09 C10 C16."""
 import json
 import os
+import re
 import vcheck as V
 
 SHAPES = {0: "other", 1: "struct-by-value-in-map", 2: "toplevel-untagged-map", 3: "taggable-map-no-matching-tag", 4: "unexported-field", 5: "field-after-taggable-struct"}
@@ -31,6 +32,15 @@ WHAT = {
     "KMutated": "the event handed to Process was modified",
     "KUnexp": "the value of an unexported struct field is not preserved in the forwarded copy",
     "KSpecShape": "the forwarded payload violates the shape_preserved specification evaluated on the observation alone",
+    "CKTriple": "a value was produced under another (key, salt, info) than the key in force (or no candidate reproduces it)",
+    "CKRoundTrip": "decrypting an encrypted value with the key in force does not give back the original bytes",
+    "CKFrame": "an encrypted value is not \"encrypted:\" ++ base64url(blob) (Base64.v) or does not decode back",
+    "CKHmac": "an HMAC-ed value is not \"hmac-sha256:\" ++ base64url(mac)",
+    "CKDeterminism": "equal data under equal (key, salt, info) gave different digests",
+    "CKErr": "error / no error differs from the model (missing wrapper, empty event id)",
+    "CKConsumed": "a rotation payload was not consumed",
+    "CKPanic": "the filter panicked",
+    "CKAtomic": "a value produced under concurrent rotation mixes components of different rotations",
 }
 
 ARGS = {
@@ -101,9 +111,18 @@ def _load_known_with_proposed():
 V.load_known = _load_known_with_proposed
 
 
+# mismatch items as Coq prints them, with or without the %N scope suffix
+_ITEM = re.compile(r"\((\d+)(?:%N)?,\((\d+)(?:%N)?,(\d+)(?:%N)?,(\w+)\)\)")
+
+
 def check(ctx):
     V.check_properties_file(ctx, "Properties_%s.v" % ctx.prop)
-    run(ctx)
+    try:
+        run(ctx)
+    except Exception as ex:  # a crash of the engine must not pass for a clean run
+        import traceback
+        rp = V.write_replay(ctx, "engine-crash", {"kind": "correspondence", "theorem_or_correspondence": "lib/eng_encrypt.py", "output": traceback.format_exc()[-4000:]})
+        ctx.violations.append({"match": "engine-crash", "replay": rp, "what": "the encrypt engine crashed: %r" % (ex,), "no_input": True})
     ctx.assumptions += ASSUMPTIONS[ctx.prop]
 
 
@@ -133,7 +152,7 @@ def _size(v):
 
 def case_size(c):
     if "ops" in c:
-        return len(c["ops"])
+        return len(c.get("ops") or []) + (1000 if c.get("conc") else 0)
     return _size(c.get("v")) + sum(1 for o in c.get("cfg", {}).get("ov", []) if o) + (0 if c.get("cfg", {}).get("wrap") == "ok" else 1)
 
 
@@ -163,7 +182,7 @@ def run(ctx, prop=None):
     for line in open(os.path.join(cdir, "cases.jsonl")):
         c = json.loads(line)
         cases[c["id"]] = c
-    mism, failures = V.eval_shards(ctx, summ["files"])
+    mism, failures = V.eval_shards(ctx, summ["files"], parse=_ITEM)
     V.prune_shards(summ["files"], keep=[f for f, _ in failures])
     for f, o in failures:
         rp = V.write_replay(ctx, "coqc-" + os.path.basename(f), {"kind": "correspondence", "theorem_or_correspondence": "Run_%s.mismatches on %s" % ("Crypto" if crypto else "Encrypt", f), "output": o})
@@ -237,6 +256,6 @@ def replay(ctx, rec, path):
     print(out)
     rc, out = V.run([binp, "-out", cdir, "-corpus", corpus] + (["-crypto", "-crypto-histories", "0"] if crypto else ["-modes", ""]))
     summ = json.load(open(os.path.join(cdir, "cases_summary.json")))
-    mism, failures = V.eval_shards(ctx, summ["files"])
+    mism, failures = V.eval_shards(ctx, summ["files"], parse=_ITEM)
     print("model vs implementation mismatches (case, position/step, class, kind):", mism, failures)
     return 1 if (mism or failures or summ.get("panics")) else 0
